@@ -223,3 +223,39 @@ func visitorFedDecodedPairs(host, vis *ssa.Function, headers ssa.Value) bool {
 	}
 	return fed
 }
+
+// c04ResponseHeadersReachContext — C04.S12: on the response side "reading the
+// headers back" ends in the caller's context: ReadResponseHeader hands every
+// decoded (name, value) pair except the reserved op id to AddResponseHeader,
+// unconditionally (no pair is dropped because the context already has an entry
+// of that name, is empty, …).
+func c04ResponseHeadersReachContext(ctx *core.Ctx, r *RT) {
+	ctx.Rule("C04.S12", "the decoded response-header map reaches the caller's context whole: every pair except _opid is added, whatever the context already holds", 1)
+	rh := r.Fn("C04.S12", "(*FProtocol).ReadResponseHeader")
+	if rh == nil {
+		return
+	}
+	var headers ssa.Value
+	for _, c := range ssax.Calls(rh) {
+		if c.Static != nil && c.Static.Pkg == r.Pkg && returnsHeaderMap(c.Static) {
+			for _, u := range *c.Instr.Value().Referrers() {
+				if e, ok := u.(*ssa.Extract); ok && e.Index == 0 {
+					headers = e
+				}
+			}
+		}
+	}
+	if headers == nil {
+		ctx.Unresolved("C04.S12", ssax.Name(rh), "header read not found")
+		return
+	}
+	var dst ssa.Value = rh.Params[len(rh.Params)-1]
+	for _, q := range rh.Params {
+		if ssax.TypeNamed(q.Type(), "", "FContext") {
+			dst = q
+		}
+	}
+	ok, why := rangeCopiesAllBut(rh, headers, "AddResponseHeader", dst, constString(r, "opIDHeader"))
+	ctx.Check(ok, "C04.S12", ssax.Name(rh)+" › every decoded pair except _opid is added to the context", fnPos(r, rh), "range over the decoded map, ctx.AddResponseHeader(name, value) unless name == _opid",
+		"the map the caller reads back is not the map that was written: "+why)
+}
